@@ -115,7 +115,8 @@ def ro_case(draw, families=None, exact_only=False, max_cons=4, allow_eq=True, al
             rows.append(row)
         cons.append({'set': draw(st.integers(0, nsets - 1)) if draw(st.integers(0, 2)) else None,
                      'sense': draw(st.sampled_from(['le', 'le', 'ge'])), 'rows': rows,
-                     'style': draw(st.integers(0, 4)), 'scale': draw(st.sampled_from([1.0, 1.0, 2.0, 0.5]))})
+                     'style': draw(st.integers(0, 4)), 'scale': draw(st.sampled_from([1.0, 1.0, 2.0, 0.5])),
+                     'vec': nrows > 1 and draw(st.booleans())})      # one array-valued robust constraint
     okind = draw(st.sampled_from(['minmax', 'minmax', 'maxmin', 'min', 'max']))
     obj = {'kind': okind, 'd0': _vec(draw, nx), 'f0': float(draw(st.integers(-1, 1)))}
     if not any(obj['d0']):
@@ -214,6 +215,38 @@ def _row_expr(row, x, y, z, u, nz, style):
     return expr
 
 
+def _vec_expr(rows, x, y, z, u, nz, style):
+    """array-valued expression stacking the rows (one multi-row robust constraint)"""
+    A0 = np.array([r['a0'] for r in rows])
+    Bm = np.array([r['b'] for r in rows])
+    C = np.array([r['c'] for r in rows])
+    c0 = np.array([r['c0'] or 0.0 for r in rows])
+    m = len(rows)
+    expr = A0 @ x + c0 if style % 2 == 0 else c0 + A0 @ x
+    A3 = np.array([r['A'] for r in rows])           # m x nx x nw
+    for (rv, off, n) in ((z, 0, nz), (u, nz, A3.shape[2] - nz)):
+        if rv is None:
+            continue
+        blk = A3[:, :, off:off + n]
+        if np.any(blk):
+            if style in (0, 1, 4):
+                for j in range(n):
+                    if np.any(blk[:, :, j]):
+                        expr = expr + (blk[:, :, j] @ x) * rv[j]
+            else:
+                Z = None
+                for j in range(n):
+                    if np.any(blk[:, :, j]):
+                        t = rv[j] * blk[:, :, j]
+                        Z = t if Z is None else Z + t
+                expr = expr + Z @ x
+        if np.any(C[:, off:off + n]):
+            expr = expr + C[:, off:off + n] @ rv
+    if y is not None and np.any(Bm):
+        expr = expr + Bm @ y
+    return expr
+
+
 def build(case, order=None):
     """returns (model, handles)"""
     from rsome import ro
@@ -275,8 +308,11 @@ def build(case, order=None):
         con = case['cons'][ci]
         sc = con.get('scale', 1.0)
         cs = []
-        for row in con['rows']:
-            e = _row_expr(row, x, y, z, u, nz, con['style'])
+        for row in (con['rows'] if not con.get('vec') else [None]):
+            if row is None:
+                e = _vec_expr(con['rows'], x, y, z, u, nz, con['style'])
+            else:
+                e = _row_expr(row, x, y, z, u, nz, con['style'])
             if sc != 1.0:
                 e = sc * e
             if con['sense'] == 'le':
